@@ -68,6 +68,22 @@ for A in ('Rad', 'Deg'):
     add('<cgmath::Matrix4<R> as From<cgmath::Euler<cgmath::%s<R>>>>::from' % A, 'e: Euler<%s<R>>' % A, 'Matrix4<R>', 'e.into()')
     add('<%s as From<cgmath::Euler<cgmath::%s<R>>>>::from' % (Q, A), 'e: Euler<%s<R>>' % A, 'Quaternion<R>', 'e.into()')
     add('<cgmath::Basis3<R> as From<cgmath::Euler<cgmath::%s<R>>>>::from' % A, 'e: Euler<%s<R>>' % A, 'Basis3<R>', 'e.into()')
+add('<cgmath::Rad<R> as From<cgmath::Deg<R>>>::from', 'd: Deg<R>', 'Rad<R>', 'd.into()')
+add('<cgmath::Deg<R> as From<cgmath::Rad<R>>>::from', 'd: Rad<R>', 'Deg<R>', 'd.into()')
+for A in ('Rad', 'Deg'):
+    T = 'cgmath::%s<R>' % A
+    add('<%s as cgmath::Angle>::sin' % T, 'a: %s<R>' % A, 'R', 'Angle::sin(a)')
+    add('<%s as cgmath::Angle>::cos' % T, 'a: %s<R>' % A, 'R', 'Angle::cos(a)')
+    add('<%s as cgmath::Angle>::tan' % T, 'a: %s<R>' % A, 'R', 'Angle::tan(a)')
+    add('<%s as cgmath::Angle>::sin_cos' % T, 'a: %s<R>' % A, '(R, R)', 'Angle::sin_cos(a)')
+    add('<%s as cgmath::Angle>::normalize' % T, 'a: %s<R>' % A, '%s<R>' % A, 'a.normalize()')
+    add('<%s as cgmath::Angle>::normalize_signed' % T, 'a: %s<R>' % A, '%s<R>' % A, 'a.normalize_signed()')
+    add('<%s as cgmath::Angle>::full_turn' % T, '', '%s<R>' % A, '<%s<R> as Angle>::full_turn()' % A)
+    add('<%s as cgmath::Angle>::turn_div_2' % T, '', '%s<R>' % A, '<%s<R> as Angle>::turn_div_2()' % A)
+    add('<%s as cgmath::Angle>::turn_div_4' % T, '', '%s<R>' % A, '<%s<R> as Angle>::turn_div_4()' % A)
+    add('<%s as cgmath::Angle>::atan2' % T, 'a: R, b: R', '%s<R>' % A, '<%s<R> as Angle>::atan2(a, b)' % A)
+    add('<%s as cgmath::Angle>::asin' % T, 'a: R', '%s<R>' % A, '<%s<R> as Angle>::asin(a)' % A)
+    add('<%s as cgmath::Angle>::acos' % T, 'a: R', '%s<R>' % A, '<%s<R> as Angle>::acos(a)' % A)
 out = ['//! GENERATED by tools/gen_shims.py -- do not edit.  See that file for the rationale.', '#![allow(non_snake_case)]', 'use crate::*;', 'use cgmath::*;', '']
 seen = set()
 for callee, params, ret, body in E:
